@@ -14,7 +14,7 @@ import (
 func init() {
 	register(&propDef{
 		id: "C16", level: "other", perCfg: true,
-		explain: "Static lock-set (Eraser-style) discipline, decided for all schedules at once because it is a statement about the code, not about an execution. Thread classes are found by role: S = the serving functions (callers of net.Listener.Accept) with everything they call synchronously; H = functions started with `go` from S and their callees (connection handlers, HandleMessage, built-in handlers, Call methods, registered dispatchers of the repo); A = Shutdown, GetListener, RegisterInterface (the API the property names) plus the guard prefix of Bind; X = any other goroutine the library starts. Rule LS: for every field of Service and every pair of accesses (field loads/stores, map lookups/updates/iteration, element accesses, escapes of a map value) from classes that may overlap (everything except S with S), at least one a write, the must-held lock sets intersect. Fields written only during construction are exempt. Rule GV: package-level variables of varlink/ctxio are written only by package initialisation. Rule J: every helper goroutine of the context-aware I/O operations sends its result on a buffered channel created by the same activation and is joined (received from) before every return that follows the `go`, except returns on the error edge of a deadline setter. Rule CR: variables shared with a goroutine by capture are written only before the `go` statement, and helper-written ones are read only after the join - a join being a receive (plain or as the chosen case of a select) from a channel the goroutine sends on or closes after its last write of the variable. BR (= C02.F3) the buffered reader the helper goroutines read from is created in the wrapper's constructor only and belongs to one connection (not pooled, cached or shared).",
+		explain: "Static lock-set (Eraser-style) discipline, decided for all schedules at once because it is a statement about the code, not about an execution. Thread classes are found by role: S = the serving functions (callers of net.Listener.Accept) with everything they call synchronously; H = functions started with `go` from S and their callees (connection handlers, HandleMessage, built-in handlers, Call methods, registered dispatchers of the repo); A = Shutdown, GetListener, RegisterInterface (the API the property names) plus the guard prefix of Bind; X = any other goroutine the library starts. Rule LS: for every field of Service and every pair of accesses (field loads/stores, map lookups/updates/iteration, element accesses, escapes of a map value) from classes that may overlap (everything except S with S), at least one a write, the must-held lock sets intersect. Fields written only during construction are exempt. Rule GV: package-level variables of varlink/ctxio are written only by package initialisation. Rule J: every helper goroutine of the context-aware I/O operations sends its result on a buffered channel created by the same activation and is joined (received from) before every return that follows the `go`, except returns on the error edge of a deadline setter. Rule CR: variables shared with a goroutine by capture are written only before the `go` statement, and helper-written ones are read only after the join - a join being a receive (plain or as the chosen case of a select) from a channel the goroutine sends on or closes after its last write of the variable. BR (= C02.F3) the buffered reader the helper goroutines read from is created in the wrapper's constructor only and belongs to one connection (not pooled, cached or shared). LB lock balance (may-held analysis): on every path of every library function each Lock is followed by exactly one Unlock before return (defers included), no Unlock without a Lock, no second Lock while held. CR joins are recognised generically (receive, select case, WaitGroup.Wait after Done).",
 		notDec:  "Races inside user handlers and user dispatchers; misuse outside the stated model (two concurrent serving calls, Bind concurrent with Bind); races inside net, bufio, encoding/json (trusted goroutine-safety of net.Conn methods).",
 		trusted: []string{"net.Conn methods (Read/Write/Set*Deadline/Close) may be called concurrently (net package contract)", "sync.Mutex provides mutual exclusion and happens-before", "a receive from a channel happens after the corresponding send"},
 		assume:  []string{"at most one serving call (Listen/DoListen) runs on a Service at a time; Bind is not called concurrently with Bind or with the start of a serving call (the property's stated model)", "all methods operate on one Service object: the lock is identified by its field (standard lock-set simplification)"},
